@@ -790,6 +790,27 @@ pub fn test_c11(reg: &Reg, case: &Case, stats: Option<&mut Stats>) -> Verdict {
             }
         }
     }
+    // a validate function whose error type is the container's own error type: the error it built must still be
+    // handed to the error type at the container's location (the location validate was called with)
+    for (i, ev) in c.out.trace.iter().enumerate() {
+        if let Event::UserFn { id, role: "validate", ok: false, loc: Some(at), .. } = ev {
+            if !dv_core::probe::is_own_error_validate(*id) {
+                continue;
+            }
+            let made = c.out.trace[i + 1..].iter().find_map(|e| match e {
+                Event::Report { id: rid, kind: RKind::Unexpected { msg }, .. } if msg.starts_with(&format!("validate#{id} ")) => Some(*rid),
+                _ => None,
+            });
+            let Some(rid) = made else { continue };
+            let handed = c.out.trace[i + 1..].iter().any(|e| matches!(e, Event::HandOver { other_ids, loc, .. } if other_ids.contains(&rid) && loc == at));
+            if !handed {
+                return Verdict::Violation(
+                    "C11|validate-failure-not-handed-to-the-error-type".into(),
+                    json!({"what": format!("validate#{id} failed at {} with an error of the container's own error type, but that error was never handed to the error type there", path_str(at)), "history": hist(&c)}),
+                );
+            }
+        }
+    }
     // a failure of a field-level try_from is handed on at the FIELD's location: when the field has its own error
     // type, the conversion error is reported to that type at the field and the result is handed to the
     // container's error type at the same place - whatever the field's error type answered
